@@ -16,7 +16,7 @@ COMMON = os.path.join(os.path.dirname(HERE), "common")
 ASSUMPTIONS = [
     "WireServerClient::send_telemetry_data (stub, real signature): appends exactly one Post{body, ok = result is Ok} to the ghost trace when the body is non-empty and nothing when it is empty (its real body returns Ok(()) before sending in that case); this is the only place where an upload enters the trace",
     "TelemetryEvent::from_event_log (stub) is a function of (event, vm_meta_data): the system facts it reads (OS version, RAM, CPU count, CPU architecture) do not change during one call of send_events; tev_of is uninterpreted, so every result holds for whatever the function computes",
-    "derived Clone of VmMetaData returns an equal value (E9 vx_e9_vm_meta_data_clone_*; Verus gives no spec to derived Clone of non-Copy structs)",
+    "derived Clone of VmMetaData returns an equal value (E9 vx_e9_vm_meta_data_clone; Verus gives no spec to derived Clone of non-Copy structs)",
     "str::replace(char, &str) is the per-character flat map `repl` (std documentation)",
     "String::len is the length of the UTF-8 encoding (vstd::utf8::encode_utf8, the model vstd itself uses for str::len)",
     "format!(LIT, x) with one `{}` is text-before ++ Display(x) ++ text-after (23 generated E9 stubs in to_xml_event, contract generated from the literal found in the tree: DESIGN rule E6 carried out through E9); Display of a String is the string; Display of a u64 is a non-empty string of decimal digits (dec_u64, uninterpreted otherwise)",
@@ -27,7 +27,7 @@ ASSUMPTIONS = [
     "`num_events_logged += events.len()` is redirected (E9 vx_e9_count_events): absence of usize overflow of this log-only counter is NOT proved here (C13 scope, physically unreachable)",
     "String::to_string on a String gives an equal string (contracts/common/std_string.rs axiom_to_string_string)",
     "at-most-once is per call of process_events_and_clean: an event file is read once per scan and handed to remove_file afterwards; if the OS refuses the removal the next scan reads the file again (file-system faults are outside the property's quantifier, which ranges over upload failures)",
-    "field types of EventReader / WireServerClient (shared-state handles, actor message enums, Key, ProxySummary, ...) are copied from the tree but opaque to Verus; the functions under contract never touch them",
+    "the actor-handle field types of EventReader / WireServerClient (KeyKeeperSharedState, TelemetrySharedState, AgentStatusSharedState) are opaque placeholders (E13); the functions under contract never touch them",
 ]
 
 
@@ -90,6 +90,31 @@ def build_to_xml_event(u, te):
 """, pre_body="broadcast use axiom_to_string_string;\nproof { reveal(event_xml); }", e9=e9)
 
 
+def _anchor_at(sf, it, a, b):
+    """(text, ordinal) addressing the source range [a,b) of function `it` for vxlib's anchor search"""
+    lo = it["body"][0] + 1
+    text = sf.s(a, b)
+    return text, sf.s(lo, a).count(text)
+
+
+def loop_header_anchor(sf, it, k):
+    """anchor for 'the statement that is loop k' (used with where='after': ghost text right after the loop)"""
+    l = it["loops"][k]
+    return _anchor_at(sf, it, l["span"][0], l["body"][0])
+
+
+def loop_last_stmt_anchor(sf, it, k):
+    """anchor for the last statement of the body of loop k (used with where='after': ghost text at the end of the body),
+    located through the index so that edits of the statement's text do not lose the hint"""
+    from vxlib import Undecided
+    lb = it["loops"][k]["body"]
+    blk = [b for b in it["blocks"] if b["span"] == lb]
+    if len(blk) != 1 or not blk[0]["stmts"]:
+        raise Undecided("%s: body of loop %d not found / empty" % (it["path"], k))
+    st = blk[0]["stmts"][-1]
+    return _anchor_at(sf, it, st[0], st[1])
+
+
 def unit_ret(u, sf, path):
     """E7 (return value naming) for an `async fn` whose return type is implicit: this Verus build drops the
     postconditions of such a function at the awaiting call site unless the unit result is named.
@@ -118,7 +143,7 @@ def build_event_reader(u, er):
                 final(tr).batches == (if telemetry_data@.len() > 0 { old(tr).batches.push(telemetry_data@) } else { old(tr).batches }),  // @C18.send_data_to_wire_server.one_batch_per_nonempty_data
                 telemetry_data@.len() == 0 ==> final(tr).posts == old(tr).posts,  // @C18.send_data_to_wire_server.empty_batch_is_not_uploaded
 """, pre_body="broadcast use lemma_fails_len, lemma_concat_push, lemma_xml_nonempty, group_fmt_telemetry;",
-              loop_iter_names={0: "it"}, loop_attrs={0: "#[verifier::loop_isolation(false)] #[verifier::allow_complex_invariants]"}, loops={0: """
+              loop_attrs={0: "#[verifier::loop_isolation(false)] #[verifier::allow_complex_invariants]"}, loops={0: """
             invariant_except_break
                 tr.posts == old(tr).posts + fails(xml_of(telemetry_data@), it.index@ as int),  // @C18.send_data_to_wire_server.resent_only_after_failure
             invariant
@@ -131,8 +156,8 @@ def build_event_reader(u, er):
 """},
               e9=[("tokio::time::sleep(Duration::from_secs(15)).await", None, "", "", "", "", dict(is_async=True, name="vx_e9_sleep_15s", no_await=False)),
                   ("[0; 5]", None, "", "", "VxArrIter5", "    ensures vstd::std_specs::iter::IteratorSpec::remaining(&r).len() == 5,",
-                   dict(wrap="VxArrIter5", body="[0; 5].into_iter()", name="vx_e11_retry_5"))],
-              hints=[("for _ in", None, "after", """proof {
+                   dict(wrap="VxArrIter5", body="[0; 5].into_iter()", name="vx_e11_retry_5", prefix="it: "))],   # prefix = E7 ghost iterator name
+              hints=[loop_header_anchor(er, er.item("EventReader::send_data_to_wire_server", "fn"), 0) + ("after", """proof {
             let k = tr.posts.len() - old(tr).posts.len();
             tr.batches = tr.batches.push(telemetry_data@);
             tr.attempts = tr.attempts.push(k);
@@ -197,10 +222,10 @@ proof { assert(old(tr).batches.subrange(0, old(tr).batches.len() as int) =~= old
                 decreases %(EV)s@.len() + (if %(FLAG)s { 1int } else { 0int }),  // @C18.send_events.batch_filling_terminates
 """ % N)},
               hints=[(td_stmt, None, "before", "let ghost n0 = %(EV)s@.len();" % N),
-                     (er.s(it["loops"][0]["span"][0], it["loops"][0]["body"][0]), 0, "after", "proof { lemma_new_batches(*old(tr), *tr, input); }")],
+                     loop_header_anchor(er, it, 0) + ("after", "proof { lemma_new_batches(*old(tr), *tr, input); }")],
               e9=[("serde_json::to_string(&event)", None, "event: &Event", "&event", "core::result::Result<String, serde_json::Error>", "", dict(body="serde_json::to_string(event)", name="vx_e9_event_to_json")),
-                  ] + [("%(VM)s.clone()" % N, i, "vm_meta_data: &VmMetaData", VM, "VmMetaData", "    ensures r == *vm_meta_data,", dict(body="vm_meta_data.clone()", name="vx_e9_vm_meta_data_clone_%d" % i))
-                       for i in range(er.s(it["body"][0], it["body"][1]).count("%(VM)s.clone()" % N))])
+                  ("%(VM)s.clone()" % N, "all", "vm_meta_data: &VmMetaData", VM, "VmMetaData", "    ensures r == *vm_meta_data,", dict(body="vm_meta_data.clone()", name="vx_e9_vm_meta_data_clone"))])
+    pit = er.item("EventReader::process_events_and_clean", "fn")
     u.take_fn(er, "EventReader::process_events_and_clean", ghost=TR,
               ghost_calls=[("Self::send_events", None, "Tracked(tr)"), ("Self::clean_files", None, "Tracked(tr)")], contract="""
         requires old(tr).wf(),
@@ -213,8 +238,8 @@ proof { assert(old(tr).batches.subrange(0, old(tr).batches.len() as int) =~= old
                 it.seq() == files@,
                 tr.wf(),  // @C18.process_events_and_clean.inv.trace_wf
                 tr.removed == old(tr).removed + files@.subrange(0, it.index@ as int),  // @C18.process_events_and_clean.inv.every_visited_file_is_cleaned
-"""}, hints=[("Self::clean_files(file);", None, "after", "proof { assert(files@.subrange(0, it.index@ + 1) =~= files@.subrange(0, it.index@ as int).push(files@[it.index@ as int])); }"),
-             ("for file in files", None, "after", "proof { assert(files@.subrange(0, files@.len() as int) =~= files@); }")])
+"""}, hints=[loop_last_stmt_anchor(er, pit, 0) + ("after", "proof { assert(files@.subrange(0, it.index@ + 1) =~= files@.subrange(0, it.index@ as int).push(files@[it.index@ as int])); }"),
+             loop_header_anchor(er, pit, 0) + ("after", "proof { assert(files@.subrange(0, files@.len() as int) =~= files@); }")])
 
 
 def build(u):
@@ -231,12 +256,8 @@ def build(u):
 
     serr = u.src("proxy_agent_shared/src/error.rs")
     smisc = u.src("proxy_agent_shared/src/misc_helpers.rs")
-    sagg = u.src("proxy_agent_shared/src/proxy_agent_aggregate_status.rs")
     err = u.src("proxy_agent/src/common/error.rs")
     logger = u.src("proxy_agent/src/common/logger.rs")
-    key = u.src("proxy_agent/src/key_keeper/key.rs")
-    ar = u.src("proxy_agent/src/proxy/authorization_rules.rs")
-    ps = u.src("proxy_agent/src/proxy/proxy_summary.rs")
     kkw = u.src("proxy_agent/src/shared_state/key_keeper_wrapper.rs")
     tw = u.src("proxy_agent/src/shared_state/telemetry_wrapper.rs")
     asw = u.src("proxy_agent/src/shared_state/agent_status_wrapper.rs")
@@ -251,10 +272,6 @@ def build(u):
             u.raw("pub type Result<T> = core::result::Result<T, Error>;")
         with u.mod("misc_helpers", uses="use crate::proxy_agent_shared::result::Result;\nuse serde::de::DeserializeOwned;\nuse std::path::{Path, PathBuf};"):
             u.take_fn(smisc, "json_read_from_file", external_body=True)
-        with u.mod("proxy_agent_aggregate_status"):
-            # types mentioned only by the (opaque) actor message enums below
-            u.take(sagg, "ModuleState", "enum")
-            u.take(sagg, "ProxyConnectionSummary", "struct")
 
     with u.mod("common"):
         with u.mod("error"):
@@ -269,26 +286,15 @@ def build(u):
     ensures r@ == esc(s@),  // @C18.xml_escape.is_entity_encoding
 """, pre_body="broadcast use ax_pat_char;\nproof { lemma_chain_is_esc(s@); }")
 
-    # --- types that exist in the unit only because EventReader / WireServerClient name them in their fields
-    #     (never inspected by the functions under contract; opaque to Verus, type-checked by rustc)
-    with u.mod("key_keeper"):
-        with u.mod("key", uses="use std::collections::HashMap;"):
-            u.take(key, "Key", "struct", extra_attrs="#[verifier::external_body]")
-            u.take(key, "Privilege", "struct", extra_attrs="#[verifier::external_body]")
-            u.take(key, "Identity", "struct", extra_attrs="#[verifier::external_body]")
-    with u.mod("proxy", uses=""):
-        with u.mod("authorization_rules", uses="use crate::key_keeper::key::{Identity, Privilege};\nuse std::collections::{HashMap, HashSet};"):
-            u.take(ar, "AuthorizationMode", "enum")
-            u.take(ar, "ComputedAuthorizationItem", "struct", extra_attrs="#[verifier::external_body]")
-        with u.mod("proxy_summary", uses="use std::path::PathBuf;"):
-            u.take(ps, "ProxySummary", "struct", extra_attrs="#[verifier::external_body]")
+    # --- types that exist in the unit only because EventReader / WireServerClient name them in their fields: actor handles,
+    #     never inspected by the functions under contract -> opaque placeholders (rule E13)
     with u.mod("shared_state"):
         with u.mod("key_keeper_wrapper"):
-            u.take_ext(kkw, ["KeyKeeperAction", "KeyKeeperSharedState"], "vx_ext_kkw", uses="use crate::proxy::authorization_rules::ComputedAuthorizationItem;\nuse crate::key_keeper::key::Key;\nuse std::sync::Arc;\nuse tokio::sync::{mpsc, oneshot, Notify};")
+            u.placeholder_ext(kkw, ["KeyKeeperSharedState"], "vx_ph_kkw")
         with u.mod("telemetry_wrapper"):
-            u.take_ext(tw, ["TelemetryAction", "TelemetrySharedState"], "vx_ext_tw", uses="use crate::telemetry::event_reader::VmMetaData;\nuse tokio::sync::{mpsc, oneshot};")
+            u.placeholder_ext(tw, ["TelemetrySharedState"], "vx_ph_tw")
         with u.mod("agent_status_wrapper"):
-            u.take_ext(asw, ["AgentStatusAction", "AgentStatusModule", "AgentStatusSharedState"], "vx_ext_asw", uses="use crate::proxy::proxy_summary::ProxySummary;\nuse crate::proxy_agent_shared::proxy_agent_aggregate_status::{ModuleState, ProxyConnectionSummary};\nuse tokio::sync::{mpsc, oneshot};")
+            u.placeholder_ext(asw, ["AgentStatusSharedState"], "vx_ph_asw")
     with u.mod("host_clients"):
         with u.mod("wire_server_client", uses="use crate::common::result::Result;\nuse crate::shared_state::key_keeper_wrapper::KeyKeeperSharedState;"):
             u.take(wsc, "WireServerClient", "struct", extra_attrs="#[verifier::external_body]")
@@ -318,15 +324,16 @@ impl View for TelemetryData {
                 u.take_fn(te, "TelemetryData::new", contract="""
         ensures r@ == Seq::<TelemetryEvent>::empty(),  // @C18.TelemetryData.new.empty
 """)
+                txi = te.item("TelemetryData::to_xml", "fn")
                 u.take_fn(te, "TelemetryData::to_xml", contract="""
         ensures r@ == xml_of(self@),  // @C18.TelemetryData.to_xml.document_of_view
 """, loop_iter_names={0: "it"}, loops={0: """
             invariant
                 it.seq().unref() == self.events@,
                 xml@ == "<?xml version=\\"1.0\\"?><TelemetryData version=\\"1.0\\"><Provider id=\\"FFF0196F-EE4C-4EAF-9AA5-776F622DEB4F\\">"@ + events_xml(self.events@.subrange(0, it.index@ as int)),
-"""}, hints=[("xml.push_str(&e.to_xml_event());", None, "after", """proof {
+"""}, hints=[loop_last_stmt_anchor(te, txi, 0) + ("after", """proof {
                 assert(self.events@.subrange(0, it.index@ + 1).drop_last() =~= self.events@.subrange(0, it.index@ as int));
-            }"""), ("xml.push_str(\"</Provider></TelemetryData>\");", None, "before", "proof { assert(self.events@.subrange(0, self.events@.len() as int) =~= self.events@); }")])
+            }"""), loop_header_anchor(te, txi, 0) + ("after", "proof { assert(self.events@.subrange(0, self.events@.len() as int) =~= self.events@); }")])
                 u.take_fn(te, "TelemetryData::get_size", contract="""
         ensures r == xml_len(self@),  // @C18.TelemetryData.get_size.is_document_size_in_bytes
 """)
